@@ -40,9 +40,12 @@ def build(init):
     kw["parameters"] = list(PARAMS)      # deliberately not in sorted order
     if init["cls"] == "Base":
         return BaseSamples(x, xp=xp, dtype=dt, **kw)
+    evv = 0.0 if init.get("ev") == "attached0" else EV_ATTACHED
     if init["cls"] == "Samples":
+        if init.get("ev") in ("attached", "attached0"):
+            return Samples(x, xp=xp, dtype=dt, log_evidence=evv, log_evidence_error=EVERR_ATTACHED, **kw)
         return Samples(x, xp=xp, dtype=dt, **kw)
-    return SMCSamples(x, xp=xp, dtype=dt, beta=0.5, log_evidence=EV_ATTACHED,
+    return SMCSamples(x, xp=xp, dtype=dt, beta=0.5, log_evidence=evv,
                       log_evidence_error=EVERR_ATTACHED, **kw)
 
 
@@ -157,7 +160,9 @@ def project(obj, ev0):
         lerr = getattr(obj, "log_evidence_error", None)
         lerr = None if lerr is None else float(np.asarray(smcdrv.to_np(lerr)).reshape(-1)[0])
         # the evidence a set carries is the estimate *and* its error estimate
-        if abs(lev - EV_ATTACHED) < 1e-9:
+        if lev == 0.0 and lerr is not None and abs(lerr - EVERR_ATTACHED) < 1e-9:
+            out["ev"] = "attached0"
+        elif abs(lev - EV_ATTACHED) < 1e-9:
             out["ev"] = "attached" if (lerr is not None and abs(lerr - EVERR_ATTACHED) < 1e-9) else f"attached-with-other-error:{lerr!r}"
         elif ev0 is not None and abs(lev - ev0[0]) <= 1e-5 * (1 + abs(ev0[0])):
             out["ev"] = "own" if (lerr is not None and abs(lerr - ev0[1]) <= (1e-5 if 32 in (out["width"], ev0[2]) else 1e-9) * (1 + abs(ev0[1]))) else f"own-with-other-error:{lerr!r} (original {ev0[1]!r})"
